@@ -444,7 +444,8 @@ ATTEMPTED = ["C13.attempted.truncation.keeps_exactly_the_promised_share.1d"]
 
 
 def main(tier):
-    bounds = {"constructors": "uniform (|l|, r < 4h), fixed size (<= 5/9 points), geometric and geometric-with-bounds (<= 3/5 points per side), credit (d <= 3, symmetric and asymmetric); h, bounds, thresholds arbitrary reals",
+    bounds = {"histories_and_variants": 'truncation_probability symbolic in (0, 1) for the uniform and geometric constructors (what reaches compute_truncation)',
+              "constructors": "uniform (|l|, r < 4h), fixed size (<= 5/9 points), geometric and geometric-with-bounds (<= 3/5 points per side), credit (d <= 3, symmetric and asymmetric); h, bounds, thresholds arbitrary reals",
               "refinement": "up to 3+3 points, up to 3 refinements, shared-axis storage in 2-d/3-d",
               "outside": "compute_truncation_helper (Brent root search) and np.geomspace are contract stubs; probability-step axes (unbounded root-search loops with bare except); promised tail / per-step probabilities"}
     return run_check(PID, tier, harnesses(tier), expect=EXPECT, attempted=ATTEMPTED, bounds=bounds,
